@@ -283,12 +283,17 @@ def run_hypothesis(check, stats, strategy, test, max_examples, seed):
     (i.e. after consulting check.is_known). The shrunk violation is recorded in stats."""
     from hypothesis import given, seed as hseed
     import hypothesis.errors
+    import hypothesis.internal.conjecture.engine as _eng
+    _eng.BUFFER_SIZE = 1 << 18  # model generators draw a lot; the 8 KiB default silently discards large cases
+    _eng.MAX_SHRINKING_SECONDS = 120
     holder = {}
+    counter = {'n': 0}
 
     @hyp_settings(max_examples)
     @hseed(seed)
     @given(strategy)
     def t(x):
+        counter['n'] += 1
         r = test(x)
         if r is not None:
             holder['v'] = r
@@ -303,3 +308,6 @@ def run_hypothesis(check, stats, strategy, test, max_examples, seed):
         # the harness is deterministic by construction; a flaky report is counted, not a verdict
         stats.inconclusive += 1
         stats.notes['flaky'] = str(e)[:300]
+    stats.extra['hypothesis_examples_run'] += counter['n']
+    if counter['n'] < max_examples and 'v' not in holder:
+        stats.notes['short_run'] = 'hypothesis executed %d of %d requested examples' % (counter['n'], max_examples)
